@@ -146,3 +146,43 @@ Example C09_mirror_ex :   (* a clipped forward read with a deletion, mirrored on
     Done (mkObs (Some 3996) (Some true) (Some CATG) None false true (Some 3996) (Some true)).
 Proof. vm_compute. repeat split. Qed.
 Print Assumptions C09_mirror_ex.
+
+(* molecules (CHICMolecule / NlaIIIMolecule._add_fragment, CHICMolecule.write_tags): the molecule's cut site
+   moves to the outermost fragment site - min on the forward strand, max on the reverse strand - and the
+   DS tags a CHIC molecule writes (assignment_radius > 0, more than one fragment) are mirror symmetric:
+   tagging the mirrored reads gives the mirrored DS for every fragment, for any list of mapped reads,
+   any radius, any configuration. *)
+Theorem C09_chic_molecule_mirror : forall c L radius rs,
+  Forall (fun r => r_unmapped r = false /\ r_cigar r <> []) rs ->
+  chic_mol_ds radius (chic_frag_sites c (map (mirror L) rs)) =
+  map (fun s => L - 1 - s) (chic_mol_ds radius (chic_frag_sites c rs)).
+Proof. exact chic_molecule_mirror. Qed.
+Print Assumptions C09_chic_molecule_mirror.
+
+Theorem C09_nla_molecule_mirror : forall c L rs,
+  Forall (fun r => r_unmapped r = false /\ r_cigar r <> []) rs ->
+  mol_site (nla_frag_sites c (map (mirror L) rs)) =
+  option_map (fun s => L - 4 - s) (mol_site (nla_frag_sites c rs)).
+Proof. exact nla_molecule_mirror. Qed.
+Print Assumptions C09_nla_molecule_mirror.
+
+Theorem C09_molecule_site_outermost : forall f rest,
+  (Forall (fun g => fst g = false) rest -> mol_site (f :: rest) = Some (fold_left Z.min (map snd rest) (snd f))) /\
+  (Forall (fun g => fst g = true) rest -> mol_site (f :: rest) = Some (fold_left Z.max (map snd rest) (snd f))).
+Proof.
+  intros f rest. split; intro H; cbn [mol_site]; f_equal;
+    [exact (mol_fold_forward rest (snd f) H) | exact (mol_fold_reverse rest (snd f) H)].
+Qed.
+Print Assumptions C09_molecule_site_outermost.
+
+Example C09_molecule_ex :   (* three reverse-strand MNase fragments of one cut, ragged by 0..2 bases, radius 2 *)
+  let rs := [simulate_chic [84; 65; 67; 71; 71; 65] [(0, 6)] 1000 true 0 0 false None;
+             simulate_chic [84; 65; 67; 71; 71; 65] [(0, 6)] 998 true 0 0 false None;
+             simulate_chic [84; 65; 67; 71; 71; 65] [(0, 5)] 999 true 1 0 false None] in
+  let c := mkCfg false true false false in
+  chic_frag_sites c rs = [(true, 1001); (true, 999); (true, 1000)] /\
+  chic_mol_ds 2 (chic_frag_sites c rs) = [1001; 1001; 1001] /\
+  chic_mol_ds 0 (chic_frag_sites c rs) = [1001; 999; 1000] /\
+  chic_mol_ds 2 (chic_frag_sites c (map (mirror 5000) rs)) = [3998; 3998; 3998].
+Proof. vm_compute. repeat split. Qed.
+Print Assumptions C09_molecule_ex.
